@@ -86,16 +86,41 @@ def invalid_weaver_ops(wv):
         ("slice-value-absent", "stop", lambda w: w.slice_by_value(x0, x1 + 7.5)),
         ("slice-value-absent", "both", lambda w: w.slice_by_value(absent, x1 + 7.5)),
     ]
+    # a truncation range that is fine for the working series but empty / inverted for the reference series (their
+    # ranges differ after reshaping + truncation): the operation may honour it, but if it refuses, it must refuse
+    # atomically.  Flagged "may-succeed": acceptance is not judged, only what a refusal leaves behind.
+    try:
+        rx = wv.get_reference()[0]
+        r0, r1 = float(rx[0]), float(rx[-1])
+        wl, rl = 0.5 * (x1 - x0) + x0, 0.5 * (r1 - r0) + r0
+        if wl < rl:
+            right = (wl + rl) / 2
+            ops.append(("truncation-range", "inverted-for-reference-only:left-ratio",
+                        lambda w: w.truncate_by_value(0.5, right, x_left_as_ratio=True), True))
+        if rl < wl:
+            left = (wl + rl) / 2
+            ops.append(("truncation-range", "inverted-for-reference-only:right-ratio",
+                        lambda w: w.truncate_by_value(left, 0.5, x_right_as_ratio=True), True))
+    except Exception:
+        pass
     return ops
 
 
 def state_checks(r, op):
     fails = []
     before = WO.observables(r.wv)
-    for (cls, variant, call) in invalid_weaver_ops(r.wv):
+    for entry in invalid_weaver_ops(r.wv):
+        cls, variant, call = entry[:3]
+        may_succeed = len(entry) > 3 and entry[3]
         w = copy.deepcopy(r.wv)     # a copy, so that an accepted invalid request cannot derail the exploration
         key = {"class": cls, "variant": variant.split(":")[0], "level": "weaver"}
-        fails += _expect_value_error(lambda: call(w), key)
+        res = _expect_value_error(lambda: call(w), key)
+        if may_succeed:
+            if any(f["clause"] == "invalid-request-accepted" for f in res):
+                continue                     # honoured: nothing to judge
+            fails += res
+        else:
+            fails += res
         after = WO.observables(w)
         if after != before:
             names = ["x", "y", "reference_x", "reference_y", "original_x", "original_y"]
@@ -239,7 +264,7 @@ def harnesses(tier, seed):
             ctx.outcome(WO.observables(r.wv), nontrivial=len(done) > 0)
             if len(done) == 2 and ii == 3 and sum(ctx.choices) % 53 == 0:
                 ctx.sample({"init": WO.INITS[ii]["name"], "state_after": [list(o) for o in done],
-                            "invalid_ops_fired": sorted(set(c for c, _, _ in invalid_weaver_ops(r.wv)))})
+                            "invalid_ops_fired": sorted(set(e[0] for e in invalid_weaver_ops(r.wv)))})
         node(None)
         for d in range(depth):
             en = r.enabled(c09.CORE_OPS)
